@@ -67,3 +67,11 @@ add("C10",
     "Trusted: CrossHair/z3; xmlsec1 by contract (stub verdicts); parsed-object hand-over for the field checks; clock model. only_valid_cert option outside the claim.",
     "DESIGN.md 3/C10")
 NOT_APPLICABLE.pop("C10", None)
+
+add("C16",
+    "CrossHair symbolic execution of InMemoryMetaData.do_entity_descriptor / MetadataStore.service / certs / load('remote') + parse_and_check_signature over symbolic federation shapes, clock and verification outcomes",
+    "Two-source federations with symbolic endpoint subsets, duplicates, validUntil vs symbolic clock and every (entity, binding) query return exactly the declared endpoints, with unknown vs unsupported distinguished and expired entities unserved; certs() returns exactly the entity's certificates of the requested or unspecified use; "
+    "signed metadata with a configured certificate is served only if verification answered True (False and raising both covered); generated SP metadata loads back to the configured endpoints and keys.",
+    "Trusted: CrossHair/z3; metadata enters as md objects (no XML parsing except signed_md and roundtrip fixtures); HTTP fetch and verification are stubs; clock model.",
+    "DESIGN.md 3/C16")
+NOT_APPLICABLE.pop("C16", None)
